@@ -28,7 +28,7 @@ else
 fi
 mkdir -p $out
 cp $src/patch.diff $out/patch.diff
-rm -rf $out/demo; cp -r $src/demo $out/demo 2>/dev/null
+if [ "$(readlink -f $src)" != "$(readlink -f $out)" ]; then rm -rf $out/demo; cp -r $src/demo $out/demo 2>/dev/null; fi
 rm -rf $out/demo/target $out/demo/project/target
 cp $src/notes.md $out/notes.md 2>/dev/null
 cp $wt/confirm.log $out/confirm.log
